@@ -32,7 +32,7 @@ from importlib import import_module  # noqa: E402
 common.quiet_rp2_logger()
 
 ASSETS = ["B1", "B2", "B3"]
-EXCHANGES = ["X1", "X2", "X3"]
+EXCHANGES = ["X1", "X2", "X3", "X4"]
 HOLDERS = ["H1", "H2"]
 
 INI_TEXT = """[general]
